@@ -48,7 +48,7 @@ type Check struct {
 
 var registry = map[string]*Check{}
 
-func Register(c *Check) { registry[c.ID] = c }
+func Register(c *Check)       { registry[c.ID] = c }
 func Lookup(id string) *Check { return registry[id] }
 func IDs() []string {
 	var ids []string
@@ -115,12 +115,12 @@ type Ctx struct {
 	vioCount map[string]int
 	notes    []string
 
-	wal       *os.File
-	walOn     bool
-	curCase   atomic.Value // string
-	caseSeq   atomic.Int64
-	caseStart atomic.Int64 // process CPU ns at case start (sampled by watchdog)
-	MaxSamples int
+	wal          *os.File
+	walOn        bool
+	curCase      atomic.Value // string
+	caseSeq      atomic.Int64
+	caseStart    atomic.Int64 // process CPU ns at case start (sampled by watchdog)
+	MaxSamples   int
 	MaxVioPerSig int
 }
 
@@ -128,7 +128,7 @@ func newCtx(id, tier string, seed int64, shard, n int, dir string) *Ctx {
 	c := &Ctx{ID: id, Tier: tier, Seed: seed, Shard: shard, NShards: n, Dir: dir,
 		distinct: map[uint64]struct{}{}, cover: map[string]map[string]int{},
 		counters: map[string]int64{}, vioCount: map[string]int{}, MaxSamples: 6, MaxVioPerSig: 3}
-	c.curCase.Store("")
+	c.curCase.Store(caseDesc{})
 	return c
 }
 
@@ -160,7 +160,7 @@ func (c *Ctx) ShardRng(stream string) *rand.Rand {
 	return c.Rng(fmt.Sprintf("%s#%d/%d", stream, c.Shard, c.NShards))
 }
 
-func (c *Ctx) Eval() { atomic.AddInt64(&c.evals, 1) }
+func (c *Ctx) Eval()       { atomic.AddInt64(&c.evals, 1) }
 func (c *Ctx) EvalN(n int) { atomic.AddInt64(&c.evals, int64(n)) }
 
 func Hash64(s string) uint64 {
@@ -243,8 +243,13 @@ func (c *Ctx) Violate(features map[string]string, witness any, detail string) {
 }
 
 // Begin marks the start of a case; desc identifies/contains the input.
+type caseDesc struct {
+	s string
+	f func() string
+}
+
 func (c *Ctx) Begin(desc string) {
-	c.curCase.Store(desc)
+	c.curCase.Store(caseDesc{s: desc})
 	c.caseSeq.Add(1)
 	if c.walOn && c.wal != nil {
 		// single-record WAL: overwrite from offset 0
@@ -263,19 +268,17 @@ func (c *Ctx) BeginLazy(f func() string) {
 		c.Begin(f())
 		return
 	}
-	c.curCase.Store(f) // watchdog resolves lazily
+	c.curCase.Store(caseDesc{f: f}) // watchdog resolves lazily
 	c.caseSeq.Add(1)
 }
 
 func (c *Ctx) currentCase() string {
-	switch v := c.curCase.Load().(type) {
-	case string:
-		return v
-	case func() string:
+	v, _ := c.curCase.Load().(caseDesc)
+	if v.f != nil {
 		defer func() { recover() }()
-		return v()
+		return v.f()
 	}
-	return ""
+	return v.s
 }
 
 func (c *Ctx) result(done bool) *WorkerResult {
@@ -403,6 +406,9 @@ func RunWorker(chk *Check, tier string, seed int64, shard, n int, dir string) in
 			time.Sleep(250 * time.Millisecond)
 			s := c.caseSeq.Load()
 			now := cpuNanos()
+			if s == 0 {
+				continue // the check does not delimit cases
+			}
 			if s != seq {
 				seq, startCPU = s, now
 				continue
